@@ -41,3 +41,19 @@ def byte_strings(seed, n=60, maxlen=24):
     yield b"\xd3\x00\x00"
     for _ in range(n):
         yield bytes(rnd.randrange(256) for _ in range(rnd.randrange(1, maxlen)))
+    # remainders with special shapes: leading zero byte(s), all ones, zero (found by search over random strings; spec CRC)
+    from spec.crc import crc_bytes
+    want = {"top_zero": lambda c: c >> 16 == 0 and c != 0, "top_two_zero": lambda c: c >> 8 == 0 and c != 0, "ones": lambda c: c == 0xFFFFFF,
+            "low_zero": lambda c: c & 0xFF == 0 and c != 0}
+    found = {}
+    tries = 0
+    while len(found) < 3 and tries < 40000:
+        tries += 1
+        m = bytes(rnd.randrange(256) for _ in range(rnd.randrange(4, 12)))
+        c = crc_bytes(m)
+        for k, f in want.items():
+            if k not in found and f(c):
+                found[k] = m
+                yield m
+    base = bytes(rnd.randrange(256) for _ in range(9))
+    yield base + crc_bytes(base).to_bytes(3, "big")  # a message with its own checksum appended: remainder 0
